@@ -472,6 +472,9 @@ fn check_invocation(
                     }
                     if stopped {
                         v.push(viol("C05", "start-after-stop", format!("s{} started after the failure budget was reached / an interruption was delivered", sid)));
+                        if interrupted_any {
+                            v.push(viol("C16", "start-after-interrupt", format!("s{} started after a command was terminated by SIGINT: an interruption must stop the build", sid)));
+                        }
                     }
                     if spec.restat {
                         v.push(viol("C03", "restat-ran-command", format!("s{} started under -t restat", sid)));
